@@ -783,3 +783,30 @@ package adt
 //@ lemma arc_token_inverse: forall a ArcType :: (a == ArcMember || a == ArcOptional || a == ArcRequired) ==> arcOfTok(tokOfArc(a)) == a
 //@ lemma token_arc_inverse: forall t token.Token :: (t == token.OPTION || t == token.NOT) ==> tokOfArc(arcOfTok(t)) == t
 //@ lemma arc_token_distinct: tokOfArc(ArcOptional) != tokOfArc(ArcRequired) && tokOfArc(ArcOptional) != tokOfArc(ArcMember) && tokOfArc(ArcRequired) != tokOfArc(ArcMember)
+
+// ---- C19: every evaluation context is private and has its own generation id ----
+// Each API call on a shared value evaluates with a context created by New: the
+// context object is freshly allocated (never shared between calls or
+// goroutines), and its opID, taken from an atomic counter, is larger than every
+// id handed out before — the id by which a vertex being finalised by another
+// context is recognised.
+//@ ghost var ctxGen int
+//@ func genAddEffect
+//@   assumed A-ext sync/atomic (*Uint64).Add: linearizable fetch-and-add (ghost ctxGen is the counter's value; no wrap-around within 2^64 contexts)
+//@   ensures ctxGen == old(ctxGen) + 1 && result == ctxGen
+//@   assigns ctxGen
+//@ func configureEffect
+//@   assumed A-int: Runtime.ConfigureOpCtx copies settings (version, flags) into the new context; it does not change its opID
+//@   ensures ctx.opID == old(ctx.opID)
+//@   assigns ctx.*
+//@ func (*OpContext).Logf
+//@   assumed A-int: debug logging
+//@ func New
+//@   arith nowrap
+//@   may_panic
+//@   callsite (*atomic.Uint64).Add#0 contract genAddEffect
+//@   callsite (adt.Runtime).ConfigureOpCtx#0 contract configureEffect
+//@   requires cfg != nil && ctxGen >= 0
+//@   ensures [private] result != nil && fresh(result)
+//@   ensures [generation] result.opID == ctxGen && ctxGen == old(ctxGen) + 1
+//@   assigns heap
